@@ -23,7 +23,7 @@ struct InRep { uint64_t t = 0, dt = 1, n = 0; int node = 0; std::string kind; ui
 
 struct Plan {
     std::string prop, scen;
-    uint64_t seed = 0, idx = 0, rseed = 1;
+    uint64_t seed = 0, idx = 0, rseed = 1, epoch = 1700000000ULL;
     bool udp = false, fd = false, tscf = false;
     int count = 1, mtt = 0;
     SchedCfg sched;
@@ -35,6 +35,7 @@ struct Plan {
     int addr = 0;            // 0: aa:bb:cc:dd:ee:02 / 10.0.0.2; 1..3: other destination MAC and IP address
     int port = 0;            // UDP port of the tunnel (0 = the programs' default 17220)
     bool env_on = false;
+    double outfault = 0;
     bool longnames = false;  // interfaces are addressed by their 15-character names
     int stackfill = 0xA5;  // byte the task stacks are pre-filled with (what a never-written local reads)
     double read0 = 0;
